@@ -191,7 +191,9 @@ def run(cx):
         cx.violation("R-WIRE", "anchors", "", "_lex_program_from_str not found in sas-lexer-py")
         return
     # --- the serialization call -------------------------------------------------------------
-    enc = [x for x, _ in F.walk(b["hir"]) if F.is_call(x) and "rmp_serde" in (x.get("def") or "")]
+    # anywhere in the binding crate (the encoding may sit in a helper of the exported function)
+    enc = [x for nm, bb in fpy.bodies.items() if not fpy.is_derive(nm) and bb["kind"] in ("Fn", "AssocFn")
+           for x, _ in F.walk(bb["hir"]) if F.is_call(x) and "rmp_serde" in (x.get("def") or "")]
     ok = len(enc) == 1 and F.norm(enc[0]["def"]).endswith("::to_vec")
     cx.ob("R-WIRE", "encoder", ok, b["span"], "one rmp_serde::encode::to_vec call (structs as positional arrays)" if ok else
           "serialization is not a single rmp_serde::encode::to_vec call (%s): named maps / another encoder break positional decoding" % [e.get("def") for e in enc])
